@@ -53,3 +53,28 @@ Theorem C03_model_satisfies_spec : forall keys order unicodes,
   spec_C03 keys order unicodes (model_C03 keys order unicodes) = true.
 Proof. exact model_satisfies_spec_C03. Qed.
 Print Assumptions C03_model_satisfies_spec.
+
+(* ---- makeOfficialGlyphOrder as TRANSLATED from /repo's util.py on this run (Generated/Imp.v) ---- *)
+From U2F Require Import Generated.Imp Order.GlyphOrderTied.
+
+(* the code, statement by statement over (names, order), is the hand model ... *)
+Theorem C03_code_glyph_order_is_the_model : forall keys order, tr_glyph_order keys order = glyph_order keys order.
+Proof. exact translated_glyph_order_is_the_model. Qed.
+Print Assumptions C03_code_glyph_order_is_the_model.
+
+(* ... so the property's wording holds of the code as it reads now: '.notdef' first (it is always present once
+   makeMissingRequiredGlyphs ran), then the listed names that exist, first occurrence only, then the rest sorted *)
+Theorem C03_code_order_shape : forall keys order,
+  tr_glyph_order (if mem notdef keys then keys else keys ++ [notdef]) order = spec_compiled_order keys order.
+Proof. exact code_order_shape. Qed.
+Print Assumptions C03_code_order_shape.
+
+Theorem C03_code_order_exactly_once : forall keys order,
+  NoDup keys -> Permutation (tr_glyph_order keys order) keys /\ NoDup (tr_glyph_order keys order).
+Proof. exact code_order_exactly_once. Qed.
+Print Assumptions C03_code_order_exactly_once.
+
+Example C03_code_order_example :
+  tr_glyph_order [[98]; notdef; [97]; [99]] [[99]; [120]; [99]; [97]] = [notdef; [99]; [97]; [98]].
+Proof. exact code_order_example. Qed.
+Print Assumptions C03_code_order_example.
